@@ -123,6 +123,7 @@ func main() {
 			f := strings.Fields(cl.lines[i])
 			if f[0] == "dnsproc" { // Go-side oracle: decoders modelled by the DNS cluster
 				r.Stat("oracle.dnsproc."+obs[j], 1)
+				r.Stat("payloadid.PayloadDNS", 1)
 				if strings.HasPrefix(obs[j], "panic") || obs[j] == "fuel" {
 					r.Viol("dns-processdns-"+obs[j], "ProcessDNS "+obs[j]+" on a frame accepted by Parse", cl.lines[i])
 				}
@@ -132,6 +133,9 @@ func main() {
 				kindHangs[f[0]]++
 			}
 			r.Case(f[0], f[1:], obs[j])
+			if pid := payloadIDOf(f[0], cl.class[i]); pid != "" { // full path Parse -> PayloadID -> processor
+				r.Stat("payloadid."+pid, 1)
+			}
 			r.Stat("class."+cl.class[i], 1)
 			r.Stat("obs."+f[0]+"."+obs[j], 1)
 			if samples < 8 && (obs[j] == "fuel" || i%997 == 0) {
@@ -175,4 +179,34 @@ func genCorpus(cl *caseList) {
 			}
 		}
 	}
+}
+
+// payloadIDOf names the PayloadID class of the kinds that run the full receive path.
+func payloadIDOf(kind, class string) string {
+	switch kind {
+	case "arp":
+		return "PayloadARP"
+	case "icmp4":
+		return "PayloadICMP4"
+	case "icmp6":
+		return "PayloadICMP6"
+	case "dhcp4":
+		return "PayloadDHCP4"
+	case "mdns":
+		return "PayloadMDNS"
+	case "llmnr":
+		return "PayloadLLMNR"
+	case "nbns":
+		return "PayloadNBNS"
+	case "ssdp", "ssdpcc":
+		return "PayloadSSDP"
+	case "p8023":
+		return "Payload8023"
+	case "other":
+		f := strings.Split(class, ".")
+		if len(f) > 1 {
+			return f[1]
+		}
+	}
+	return ""
 }
